@@ -71,6 +71,56 @@ def distances(A, length=None):
     return D
 
 
+def distances_np(A, length=None):
+    """The same Floyd-Warshall recursion with one numpy update per pivot
+    (scale family; returns a list of lists like `distances`)."""
+    import numpy as np
+    Aa = np.asarray(A)
+    n = len(Aa)
+    D = np.where(Aa != 0, 1.0 if length is None
+                 else np.asarray(length, dtype=float), INF)
+    np.fill_diagonal(D, 0.0)
+    for k in range(n):
+        D = np.minimum(D, D[:, k, None] + D[None, k, :])
+    return D.tolist()
+
+
+def betweenness_counts(A, D, L1, L2, w=None):
+    """Inter-group betweenness of an UNDIRECTED network without enumerating
+    paths: with P_s(x) the sum over shortest s-x paths of the product of the
+    node weights on the path (unweighted: the number of paths), a node v lies
+    on a shortest s-t path iff d(s,v)+d(v,t)=d(s,t), and the paths through v
+    contribute P_s(v) P_t(v) / w_v.  Must agree with `betweenness` (checked in
+    selftest and on every scale input small enough to enumerate)."""
+    import numpy as np
+    Aa = np.asarray(A, dtype=float)
+    Da = np.asarray(D, dtype=float)
+    n = len(Aa)
+    ww = np.ones(n) if w is None else np.asarray(w, dtype=float)
+    P = {}
+    for s in sorted(set(L1) | set(L2)):
+        p = np.zeros(n)
+        p[s] = ww[s]
+        ds = Da[s]
+        fin = ds[np.isfinite(ds)]
+        for d in range(1, int(fin.max()) + 1):
+            layer = ds == d
+            prev = np.where(ds == d - 1, p, 0.0)
+            p[layer] = ww[layer] * (prev @ Aa)[layer]
+        P[s] = p
+    B = np.zeros(n)
+    for s in L1:
+        for t in L2:
+            if s == t or Da[s][t] == INF:
+                continue
+            on = (Da[s] + Da[t]) == Da[s][t]
+            on[s] = on[t] = False
+            B[on] += ww[s] * ww[t] * (P[s][on] * P[t][on] / ww[on]) / P[s][t]
+    if w is not None:
+        B = B / ww
+    return B.tolist()
+
+
 def shortest_paths(A, D, s, t):
     """All shortest (hop-count) paths s -> t as node lists; D = distances(A)."""
     if D[s][t] == INF:
@@ -409,6 +459,13 @@ def selftest():
         # the docstring pins 3.3306 = sum/(W1*W1); by definition sum/(W1*W2)
         (nsi_cross_average_path_length(D, w, [0, 5], [1, 2, 4]) * 3.2 / 2.2,
          3.3306),
+    ]
+    checks += [
+        (betweenness_counts(A, D, [0, 4, 5], [1, 3], w),
+         betweenness(A, D, [0, 4, 5], [1, 3], w)),
+        (betweenness_counts(A, D, allv, allv), betweenness(A, D, allv, allv)),
+        (betweenness_counts(A, D, [2], [3, 5]), [1, 1, 0, 0, 1, 0]),
+        (distances_np(A), D),
     ]
     bad = [(i, got, exp) for i, (got, exp) in enumerate(checks)
            if not _close(got, exp)]
